@@ -41,6 +41,18 @@ func isBankSupplyOf(c *Ctx, e *ir.Expr, denom func(*ir.Expr) bool) bool {
 
 func C17(c *Ctx) {
 	w, r := c.W, c.R
+	// values computed by small in-scope helpers (circulatingSupply(a, b) = a.Sub(b), a constructor of the
+	// supply record) are looked into before they are compared with the expected shape
+	inl := func(e *ir.Expr) *ir.Expr {
+		for i := 0; i < 3 && e != nil && e.Op == "call" && e.Callee != nil && !reachesEffect(c, e.Callee, func(x ir.Effect) bool { return strings.HasPrefix(x.Kind, "Store") || x.Kind == "Bank" }); i++ {
+			x := w.Inline(e)
+			if x == nil {
+				break
+			}
+			e = x
+		}
+		return e
+	}
 	r.Explanation = "(A2 + origins on go/ssa) the three supply functions: for the enterprise denomination the value returned is bank.GetSupply(d).Sub(stored TotalLocked) and for every other denomination bank.GetSupply(d) unchanged, each return being reachable only on the matching side of d == params.Denom; the paginated variant returns the bank's page itself and rewrites element i in place with c.Sub(stored TotalLocked) only under c.Denom == params.Denom (no append/removal); the EnterpriseSupply record maps Total←supply, Locked←locked, Amount←supply.Sub(locked) for denom params.Denom; " +
 		"(A7) the gRPC SupplyOf/TotalSupply handlers (and the *Overwrite aliases bound to the bank REST paths) return those functions' results for the request's denom/pagination; (A3) the enterprise gateway routes are registered before ModuleBasics' routes so the overwrite paths win; (A7) the CLI supply commands call the enterprise query client. Numeric identities and non-negativity are not decided."
 	r.Rules = []string{"A2.supply-of", "A2.paginated-supply", "A7.enterprise-supply", "A7.query-wiring", "A3.route-order", "A7.gateway-paths", "A7.cli-client"}
@@ -80,7 +92,7 @@ func C17(c *Ctx) {
 				}
 			}
 			for i, ret := range ir.Returns(f) {
-				v := w.ExprOf(ret.Results[0])
+				v := inl(w.ExprOf(ret.Results[0]))
 				key := fmt.Sprintf("%s|return%d", fn(f), i)
 				switch {
 				case calleeIs(v, "types.Coin).Sub") && len(v.Args) == 2 && isBankSupplyOf(c, v.Args[0], isReqDenom) && isTotalLocked(c, v.Args[1]):
@@ -141,7 +153,7 @@ func C17(c *Ctx) {
 					continue
 				}
 				nst++
-				v := w.ExprOf(st.Val)
+				v := inl(w.ExprOf(st.Val))
 				elem := func(e *ir.Expr) bool {
 					return e.Op == "elem" && e.Args[0].String() == base.String() && e.Args[1].String() == w.ExprOf(ia.Index).String()
 				}
@@ -177,12 +189,22 @@ func C17(c *Ctx) {
 		if res.Len() != 1 || !strings.HasSuffix(res.At(0).Type().String(), "types.UndSupply") {
 			continue
 		}
+		// a plain constructor handed the figures (no context: it cannot read them) is judged where it is called
+		takesCtx := false
+		for _, p := range f.Params {
+			if strings.HasSuffix(p.Type().String(), "types.Context") {
+				takesCtx = true
+			}
+		}
+		if !takesCtx {
+			continue
+		}
 		ns++
-		sum := w.Summary(f).Args[0]
+		sum := inl(w.Summary(f).Args[0])
 		amt := func(e *ir.Expr) *ir.Expr {
 			// Uint64(<coin>.Amount)
 			if calleeIs(e, "math.Int).Uint64") && len(e.Args) == 1 && e.Args[0].Op == "field" && e.Args[0].Name == "Amount" {
-				return e.Args[0].Args[0]
+				return inl(e.Args[0].Args[0])
 			}
 			return nil
 		}
@@ -202,7 +224,7 @@ func C17(c *Ctx) {
 
 	// unlocked total
 	if f := w.LookupFunc("(x/enterprise/keeper.Keeper).GetTotalUnLockedUnd"); f != nil {
-		v := w.Summary(f).Args[0]
+		v := inl(w.Summary(f).Args[0])
 		ok := calleeIs(v, "types.Coin).Sub") && len(v.Args) == 2 && isBankSupplyOf(c, v.Args[0], isEntDenom) && isTotalLocked(c, v.Args[1])
 		r.Require(ok, "A7.enterprise-supply", "total-unlocked", w.Pos(f.Pos()), "total unlocked = bank supply of the enterprise denom minus stored TotalLocked", v.String())
 	}
@@ -269,28 +291,41 @@ func routeOrder(c *Ctx) {
 		r.Undecided("A3.route-order", "func", "", "App.RegisterAPIRoutes exists", "not found")
 		return
 	}
-	var ent, all []ssa.Instruction
-	for _, b := range f.Blocks {
-		for _, in := range b.Instrs {
-			call, ok := in.(ssa.CallInstruction)
-			if !ok || methodNameOf(call) != "RegisterGRPCGatewayRoutes" {
-				continue
-			}
-			cc := call.Common()
-			if cc.IsInvoke() {
-				e := w.ExprOf(cc.Value)
-				if e.Any(func(x *ir.Expr) bool { return x.Op == "const" && x.Name == `"enterprise"` }) {
-					ent = append(ent, in)
-				}
-			} else if sc := cc.StaticCallee(); sc != nil && strings.Contains(sc.String(), "BasicManager") {
-				all = append(all, in)
-			}
+	// asked on the flat view of RegisterAPIRoutes: the two registrations may stand in it or in a helper it calls
+	classify := func(in ssa.Instruction, ctx *ir.FCtx) string {
+		call, ok := in.(ssa.CallInstruction)
+		if !ok || methodNameOf(call) != "RegisterGRPCGatewayRoutes" {
+			return ""
 		}
+		cc := call.Common()
+		if cc.IsInvoke() {
+			e := w.ExprOf(cc.Value)
+			if ctx != nil {
+				e = ctx.Apply(e)
+			}
+			if e.Any(func(x *ir.Expr) bool { return x.Op == "const" && x.Name == `"enterprise"` }) {
+				return "ent"
+			}
+		} else if sc := cc.StaticCallee(); sc != nil && strings.Contains(sc.String(), "BasicManager") {
+			return "all"
+		}
+		return ""
 	}
+	root := w.FlatRoot(f)
+	var ent, all []ir.FPos
+	w.FlatWalk(root, nil, nil, func(p ir.FPos) bool {
+		switch classify(p.In, p.Ctx) {
+		case "ent":
+			ent = append(ent, p)
+		case "all":
+			all = append(all, p)
+		}
+		return true
+	})
 	r.Require(len(ent) == 1 && len(all) == 1, "A3.route-order", "sites", w.Pos(f.Pos()), "RegisterAPIRoutes registers the enterprise gateway routes and the ModuleBasics routes once each", fmt.Sprintf("%d enterprise, %d basic-manager registrations", len(ent), len(all)))
 	if len(ent) == 1 && len(all) == 1 {
-		isEnt := func(in ssa.Instruction) bool { return in == ent[0] }
-		r.Require(ir.Precedes(f, isEnt, all[0], nil), "A3.route-order", "enterprise-first", pos(c, all[0]), "enterprise gateway routes are registered before the other modules' (so its bank-path overrides win)", "the basic manager's registration is reachable first")
+		first := w.FlatReaches(root, nil, &ir.FlatCut{Barrier: func(cx *ir.FCtx, in ssa.Instruction) bool { return cx == ent[0].Ctx && in == ent[0].In }}, func(p ir.FPos) bool { return p.Ctx == all[0].Ctx && p.In == all[0].In })
+		r.Require(first == nil, "A3.route-order", "enterprise-first", pos(c, all[0].In), "enterprise gateway routes are registered before the other modules' (so its bank-path overrides win)", "the basic manager's registration is reachable first")
 	}
 }
 
@@ -330,9 +365,6 @@ func cliClient(c *Ctx) {
 	w, r := c.W, c.R
 	n := 0
 	for _, f := range w.PkgFuncs("cmd/und/cmd") {
-		if f.Parent() == nil {
-			continue
-		}
 		usesSupply := false
 		usesEnt := false
 		usesBank := false
@@ -371,7 +403,7 @@ func cliClient(c *Ctx) {
 func C19(c *Ctx) {
 	w, r := c.W, c.R
 	r.Explanation = "(A9) no binary floating point on the conversion path: from the conversion function no float operation/conversion, strconv.ParseFloat or math/big.Float method is reachable; (A5, exact go/constant arithmetic) UndPow == 10^9, UndPow x NundPow == 1, the printed precision is 9 == log10(UndPow); the fund branch multiplies by the rational UndPow/1 and the nund branch by 1/UndPow, each guarded by the matching from-denomination comparison, and the switch covers exactly {fund, nund}. A necessary condition for exactness (binary floats cannot represent 10^-9 multiples); exactness of math/big.Rat is trusted."
-	r.Rules = []string{"A9.no-float", "A5.constants", "A2.branch-scaling"}
+	r.Rules = []string{"A9.no-float", "A9.no-fixed-width", "A5.constants", "A2.branch-scaling", "A7.cli-amount"}
 	r.Trusted = []string{"math/big.Rat arithmetic is exact", "Rat.FloatString rounds correctly"}
 	r.NotDecided = []string{"round-trip equality as behaviour", "inputs with more than nine fractional digits (rounded)"}
 	f := w.LookupFunc("types.ConvertUndDenomination")
@@ -436,42 +468,135 @@ func C19(c *Ctx) {
 	r.Require(und != nil && constant.Compare(und, token.EQL, ten9), "A5.constants", "UndPow", "types/denom.go", "UndPow == 10^9", fmt.Sprint(und))
 	r.Require(und != nil && nund != nil && constant.Compare(constant.BinaryOp(und, token.MUL, nund), token.EQL, constant.MakeInt64(1)), "A5.constants", "UndPow*NundPow", "types/denom.go", "UndPow x NundPow == 1 exactly", fmt.Sprint(nund))
 
-	// branch scaling
-	fromIs := func(d string) ir.Matcher {
+	// branch scaling, asked on the flat view (the two directions may be helpers) by feasibility: for every value
+	// the source denomination can take (fund, nund, anything else) the edges that contradict it are deleted;
+	// the x10^9 factor must then be reachable only for fund, the /10^9 factor only for nund. This accepts a
+	// switch, an if-chain, early returns and "everything that is left is nund" alike.
+	fromName := f.Params[1].Name()
+	infeasibleUnder := func(v string) ir.Matcher {
 		return func(p ir.Pred) bool {
-			return cmpIs(p, "==", func(x *ir.Expr) bool { return x.Op == "param" && x.Name == f.Params[1].Name() }, func(y *ir.Expr) bool { return y.Op == "const" && y.Name == `"`+d+`"` })
+			op, x, y, ok := p.Cmp()
+			if !ok {
+				return false
+			}
+			if y.Op == "param" && x.Op == "const" {
+				x, y = y, x
+			}
+			if !(x.Op == "param" && x.Name == fromName && y.Op == "const") {
+				return false
+			}
+			cst := strings.Trim(y.Name, `"`)
+			switch op {
+			case "==":
+				return cst != v // from == cst cannot hold when from is v
+			case "!=":
+				return cst == v
+			}
+			return false
 		}
+	}
+	reachableUnder := func(site ssa.Instruction, v string) bool {
+		return len(w.FlatGuarded(f, func(in ssa.Instruction) bool { return in == site }, infeasibleUnder(v), 2)) > 0
 	}
 	nr := 0
-	for _, b := range f.Blocks {
-		for _, in := range b.Instrs {
-			call, ok := in.(*ssa.Call)
-			if !ok {
-				continue
+	seenSite := map[ssa.Instruction]bool{}
+	w.FlatWalk(w.FlatRoot(f), nil, nil, func(p ir.FPos) bool {
+		in := p.In
+		call, ok := in.(*ssa.Call)
+		if !ok || seenSite[in] {
+			return true
+		}
+		sc := call.Common().StaticCallee()
+		if sc == nil {
+			return true
+		}
+		switch sc.String() {
+		case "math/big.NewRat":
+			seenSite[in] = true
+			nr++
+			a, b2 := w.ExprOf(call.Common().Args[0]), w.ExprOf(call.Common().Args[1])
+			for a.Op == "conv" {
+				a = a.Args[0]
 			}
-			sc := call.Common().StaticCallee()
-			if sc == nil {
-				continue
+			for b2.Op == "conv" {
+				b2 = b2.Args[0]
 			}
-			switch sc.String() {
-			case "math/big.NewRat":
-				nr++
-				a, b2 := w.ExprOf(call.Common().Args[0]), w.ExprOf(call.Common().Args[1])
-				switch {
-				case a.Name == "1000000000" && b2.Name == "1":
-					r.Require(w.Guarded(f, in, fromIs("fund"), 0), "A2.branch-scaling", "x10^9", pos(c, in), "multiplication by 10^9 happens only when converting from fund", "reachable for another source denomination")
-				case a.Name == "1" && b2.Name == "1000000000":
-					r.Require(w.Guarded(f, in, fromIs("nund"), 0), "A2.branch-scaling", "/10^9", pos(c, in), "division by 10^9 happens only when converting from nund", "reachable for another source denomination")
-				default:
-					r.Bad("A2.branch-scaling", "factor|"+a.Name+"/"+b2.Name, pos(c, in), "the scale factor is 10^9 or 1/10^9", a.Name+"/"+b2.Name)
+			switch {
+			case a.Name == "1000000000" && b2.Name == "1":
+				r.Require(!reachableUnder(in, "nund") && !reachableUnder(in, "\x00other"), "A2.branch-scaling", "x10^9", pos(c, in), "multiplication by 10^9 happens only when converting from fund", "reachable for another source denomination")
+				r.Require(reachableUnder(in, "fund"), "A2.branch-scaling", "x10^9|live", pos(c, in), "the fund direction reaches its scale factor", "unreachable when converting from fund")
+			case a.Name == "1" && b2.Name == "1000000000":
+				r.Require(!reachableUnder(in, "fund") && !reachableUnder(in, "\x00other"), "A2.branch-scaling", "/10^9", pos(c, in), "division by 10^9 happens only when converting from nund", "reachable for another source denomination")
+				r.Require(reachableUnder(in, "nund"), "A2.branch-scaling", "/10^9|live", pos(c, in), "the nund direction reaches its scale factor", "unreachable when converting from nund")
+			default:
+				r.Bad("A2.branch-scaling", "factor|"+a.Name+"/"+b2.Name, pos(c, in), "the scale factor is 10^9 or 1/10^9", a.Name+"/"+b2.Name)
+			}
+		case "(*math/big.Rat).FloatString":
+			seenSite[in] = true
+			pe := w.ExprOf(call.Common().Args[1])
+			r.Require(pe.Name == "9", "A5.constants", "precision", pos(c, in), "FUND amounts are printed with nine decimals (log10 of UndPow)", pe.Name)
+		}
+		return true
+	})
+	r.Require(nr == 2, "A2.branch-scaling", "factors", w.Pos(f.Pos()), "exactly two scale factors exist (one per direction)", fmt.Sprint(nr))
+
+	// no fixed-width integer arithmetic or parsing on the conversion path (amounts beyond 2^63 must not wrap)
+	nfw := 0
+	for g := range w.Reachable([]*ssa.Function{f}) {
+		if !w.InSet(g) {
+			continue
+		}
+		for _, b := range g.Blocks {
+			for _, in := range b.Instrs {
+				switch x := in.(type) {
+				case *ssa.BinOp:
+					if bt, ok := x.Type().Underlying().(*types.Basic); ok && bt.Info()&types.IsInteger != 0 && (x.Op == token.MUL || x.Op == token.ADD || x.Op == token.SUB || x.Op == token.QUO || x.Op == token.REM) {
+						_, cx := x.X.(*ssa.Const)
+						_, cy := x.Y.(*ssa.Const)
+						if !(cx && cy) && (x.Op == token.MUL || x.Op == token.QUO || x.Op == token.REM) {
+							nfw++
+							r.Bad("A9.no-fixed-width", fn(g)+"|"+x.Op.String(), pos(c, in), "amounts are converted with arbitrary-precision arithmetic only (a machine-integer product wraps beyond 2^63)", "integer "+x.Op.String()+" on "+w.ExprOf(x).String())
+						}
+					}
+				case ssa.CallInstruction:
+					if sc := x.Common().StaticCallee(); sc != nil {
+						switch sc.String() {
+						case "strconv.ParseInt", "strconv.ParseUint", "strconv.Atoi":
+							nfw++
+							r.Bad("A9.no-fixed-width", fn(g)+"|"+sc.Name(), pos(c, in), "amounts are parsed with arbitrary precision (a 64-bit parse restricts or wraps large amounts)", "calls "+sc.String())
+						}
+					}
 				}
-			case "(*math/big.Rat).FloatString":
-				p := w.ExprOf(call.Common().Args[1])
-				r.Require(p.Name == "9", "A5.constants", "precision", pos(c, in), "FUND amounts are printed with nine decimals (log10 of UndPow)", p.Name)
 			}
 		}
 	}
-	r.Require(nr == 2, "A2.branch-scaling", "factors", w.Pos(f.Pos()), "exactly two scale factors exist (one per direction)", fmt.Sprint(nr))
+	if nfw == 0 {
+		r.OK("A9.no-fixed-width", fn(f), w.Pos(f.Pos()), "no machine-integer multiplication/division or 64-bit parsing on the conversion path")
+	}
+
+	// the command hands the amount it was given to the conversion unchanged
+	ncli := 0
+	for _, ed := range w.Callers(f) {
+		if !strings.HasPrefix(fn(ed.From), "cmd/und/cmd.") {
+			continue
+		}
+		call, ok := ed.Site.(ssa.CallInstruction)
+		if !ok || len(call.Common().Args) < 1 {
+			continue
+		}
+		ncli++
+		amt := w.ExprOf(call.Common().Args[0])
+		okAmt := false
+		for _, up := range w.OriginsUp(ed.From, amt, 3) {
+			e := up.E
+			okAmt = e.Op == "elem" && e.Args[0].Op == "param" || e.Op == "param"
+			if !okAmt {
+				break
+			}
+		}
+		r.Require(okAmt, "A7.cli-amount", fn(ed.From), pos(c, ed.Site), "the convert command passes the amount argument to the conversion unchanged (no slicing, trimming or re-formatting)", "amount argument: "+amt.String())
+	}
+	r.Floor("convert command call sites", ncli, 1)
 }
 
 func isFloatT(t types.Type) bool {
